@@ -19,6 +19,8 @@ pub enum Op {
     W(usize),
     /// `write_all` of n bytes
     WA(usize),
+    /// `write_vectored` of n bytes given as three slices (n/3, n/3, rest)
+    WV(usize),
     F,
     /// one poll
     P,
@@ -36,6 +38,7 @@ impl Op {
         match self {
             Op::W(n) => json!({"write": n}),
             Op::WA(n) => json!({"write_all": n}),
+            Op::WV(n) => json!({"write_vectored": n}),
             Op::F => json!("flush"),
             Op::P => json!("poll"),
             Op::PP => json!("poll_until_pending"),
@@ -59,6 +62,8 @@ impl Op {
             }
         } else if let Some(n) = v.get("write") {
             Op::W(n.as_u64().unwrap() as usize)
+        } else if let Some(n) = v.get("write_vectored") {
+            Op::WV(n.as_u64().unwrap() as usize)
         } else {
             Op::WA(v["write_all"].as_u64().unwrap() as usize)
         }
@@ -358,10 +363,26 @@ impl Exec {
     }
 
     pub fn write_op(&mut self, n: usize, all: bool) {
+        self.write_op_kind(n, if all { 1 } else { 0 })
+    }
+
+    /// kind: 0 = write, 1 = write_all, 2 = write_vectored (three slices)
+    pub fn write_op_kind(&mut self, n: usize, kind: u8) {
+        let all = kind == 1;
         let data = self.cfg.payload.slice(self.pos, n);
         let Some(w) = self.w.as_mut() else { return };
         let was_live = self.term == Term::Live && !self.body_gone && !self.writer_failed;
-        let r = catch_unwind(AssertUnwindSafe(|| if all { w.write_all(&data).map(|_| n) } else { w.write(&data) }));
+        let r = catch_unwind(AssertUnwindSafe(|| {
+            if kind == 2 {
+                let (a, rest) = data.split_at(n / 3);
+                let (b, c) = rest.split_at(n / 3);
+                w.write_vectored(&[std::io::IoSlice::new(a), std::io::IoSlice::new(b), std::io::IoSlice::new(c)])
+            } else if all {
+                w.write_all(&data).map(|_| n)
+            } else {
+                w.write(&data)
+            }
+        }));
         let r = match r {
             Err(p) => {
                 self.out.push(fnd(&["C08", "C09", "C11"], "write-panic", format!("write panicked: {}", crate::drive::panic_msg(p))));
@@ -396,7 +417,9 @@ impl Exec {
                 if !self.gz {
                     self.buffered += k;
                     if self.buffered >= self.cfg.chunk {
-                        self.buffered = 0; // chunk handed over (auto-flush)
+                        // whole chunks are handed over (auto-flush); a write that accepts more than
+                        // the current chunk keeps the tail in the writer
+                        self.buffered %= self.cfg.chunk;
                     }
                 }
             }
@@ -610,6 +633,10 @@ impl Exec {
                 self.write_op(n, true);
                 self.check_woken("a write_all");
             }
+            Op::WV(n) => {
+                self.write_op_kind(n, 2);
+                self.check_woken("a write_vectored");
+            }
             Op::F => {
                 self.flush_op();
                 self.check_woken("a flush");
@@ -813,7 +840,7 @@ fn enabled(prefix: &[Op], op: Op) -> bool {
     let w_gone = prefix.contains(&Op::DW);
     let b_gone = prefix.contains(&Op::DB);
     match op {
-        Op::W(_) | Op::WA(_) | Op::F | Op::FPP | Op::A | Op::DW => {
+        Op::W(_) | Op::WA(_) | Op::WV(_) | Op::F | Op::FPP | Op::A | Op::DW => {
             if w_gone {
                 return false;
             }
@@ -1336,6 +1363,8 @@ pub fn stream_zoo(prop: &str, tier: Tier) -> Stats {
             vec![Op::P, Op::WA(s), Op::F, Op::P, Op::P, Op::WA(1), Op::FPP, Op::DW],
             vec![Op::P, Op::P, Op::WA(s), Op::FPP, Op::P, Op::DW],
             vec![Op::WA(1), Op::WA(s), Op::WA(1), Op::DW],
+            vec![Op::WV(s), Op::WV(s), Op::F, Op::WV(3), Op::DW],
+            vec![Op::WA(1), Op::WV(s), Op::FPP, Op::WV(0), Op::DW],
             vec![Op::WA(s), Op::A, Op::P, Op::W(1), Op::F],
             vec![Op::WA(s), Op::FPP, Op::A, Op::F, Op::P],
             vec![Op::P, Op::A],
